@@ -2,61 +2,12 @@ import DadiVerif.Lemmas.LowPassDeep
 /-! C18 helper lemmas, part 18: the simulated regime.  `simTable pops af draws` (Model/LowPass.lean) is
     `simulate_GATK_multisample_calling` as a deterministic function of the recorded random draws.  Whatever the draws, a
     simulated table has non-negative entries and total 1 (total 0 in the degenerate case that nothing is binned), so the
-    total-mass theorem needs no assumption on the simulated tables; and the generated steps of the simulator lose no locus:
-    keep / drop are complementary, the four masked stores of the genotype-call table are exhaustive and disjoint, a locus that
-    passes the enough-calls filter is never skipped by `subsample_genotypes_1D`. -/
+    total-mass theorem needs no assumption on the simulated tables.  (The facts about the *generated* steps of the simulator —
+    keep / drop complementary, call table exhaustive, … — are proved in Props/C18.lean itself, `C18_sim_steps`, so that a change
+    of those steps in the source breaks that theorem only.) -/
 set_option linter.unusedSimpArgs false
 namespace DadiVerif.LowPass
 open Finset Gen.LowPass
-
-/-! ### the generated steps -/
-
-/-- every simulated locus is either kept as polymorphic or recorded in entry 0 — never both, never neither -/
-theorem simKeep_eq_not_simDrop (t : ℤ) : simKeep t = !simDrop t := by
-  unfold simKeep simDrop
-  by_cases h : t < 2
-  · simp [h]
-  · simp [h]; omega
-
-/-- the genotype-call table: the four masked stores cover all non-negative read counts (no entry of the `numpy.empty` array
-    stays uninitialised) and give 99 exactly without any read, 0 / 2 with reads of one kind only, 1 with both -/
-theorem simCall_table (r a : ℤ) (hr : 0 ≤ r) (ha : 0 ≤ a) :
-    simCall r a = (if r = 0 ∧ a = 0 then simNoCall else if a = 0 then 0 else if r = 0 then 2 else 1) := by
-  unfold simCall simNoCall
-  by_cases h1 : r = 0 <;> by_cases h2 : a = 0
-  · subst h1; subst h2; simp
-  · subst h1
-    have : 0 < a := by omega
-    simp [h2, this]
-  · subst h2
-    have : 0 < r := by omega
-    simp [h1, this]
-  · have h3 : 0 < r := by omega
-    have h4 : 0 < a := by omega
-    simp [h1, h2, h3, h4]
-
-theorem simCall_range (r a : ℤ) (hr : 0 ≤ r) (ha : 0 ≤ a) :
-    simCall r a = simNoCall ∨ (0 ≤ simCall r a ∧ simCall r a ≤ 2) := by
-  rw [simCall_table r a hr ha]
-  split_ifs <;> simp
-
-/-- reads of an individual: non-negative, they add up to the depth, a homozygote shows reads of one kind only -/
-theorem simReads (g d b : ℕ) (hg : g ≤ 2) (hb : b ≤ d) :
-    0 ≤ simNRef (g : ℕ) (d : ℕ) (b : ℕ) ∧ 0 ≤ simNAlt (g : ℕ) (d : ℕ) (b : ℕ) ∧
-    simNRef (g : ℕ) (d : ℕ) (b : ℕ) + simNAlt (g : ℕ) (d : ℕ) (b : ℕ) = (d : ℕ) ∧
-    (g = 0 → simNAlt (g : ℕ) (d : ℕ) (b : ℕ) = 0) ∧ (g = 2 → simNRef (g : ℕ) (d : ℕ) (b : ℕ) = 0) := by
-  unfold simNRef simNAlt
-  interval_cases g
-  · simp
-  · simp; omega
-  · simp
-
-/-- a locus with enough called individuals is never skipped by `subsample_genotypes_1D`: all populations keep the same rows -/
-theorem simEnough_not_skip (c n : ℤ) (h : simEnough c n = true) : simSubSkip c n = false := by
-  unfold simEnough at h
-  unfold simSubSkip
-  simp only [decide_eq_true_eq, decide_eq_false_iff_not, not_lt] at h ⊢
-  exact h
 
 /-! ### a table of empirical frequencies -/
 
@@ -181,6 +132,58 @@ theorem simTable_total_le (pops : List Pop) (af : List ℕ) (blocks : List Block
   cases simBinned pops af blocks with
   | none => norm_num
   | some L => simp only; split_ifs <;> norm_num
+
+/-! ### one row per locus -/
+
+theorem transposeCols_length (n : ℕ) : ∀ (cols : List (List ℤ)) (rows : List (List ℤ)),
+    transposeCols n cols = some rows → rows.length = n
+  | [], rows, h => by simp [transposeCols] at h; subst h; simp
+  | c :: cs, rows, h => by
+    simp only [transposeCols] at h
+    split_ifs at h with hc
+    cases hr : transposeCols n cs with
+    | none => rw [hr] at h; simp at h
+    | some rows' =>
+      rw [hr] at h
+      simp only [Option.some.injEq] at h
+      subst h
+      have := transposeCols_length n cs rows' hr
+      simp only [not_not] at hc
+      simp [List.length_zipWith, hc, this]
+
+theorem countP_add_filter_not {α : Type} (l : List α) (p q : α → Bool) (h : ∀ x, q x = !p x) :
+    l.countP p + (l.filter q).length = l.length := by
+  induction l with
+  | nil => simp
+  | cons a l ih =>
+    by_cases hp : p a = true
+    · have hq : q a = false := by rw [h a, hp]; rfl
+      simp [List.countP_cons, List.filter_cons, hp, hq]; omega
+    · have hp' : p a = false := by simpa using hp
+      have hq : q a = true := by rw [h a, hp']; rfl
+      simp [List.countP_cons, List.filter_cons, hp', hq]; omega
+
+/-- **every simulated locus gives exactly one row**: when the draws fit the sizes (`blockRows` succeeds), the rows one block
+    hands to `numpy.histogramdd` plus the loci it records directly in entry 0 are as many as the simulated loci — provided the
+    generated keep / drop conditions are complementary (`C18_sim_steps`) -/
+theorem blockRows_length (hkd : ∀ t : ℤ, simKeep t = !simDrop t) (pops : List Pop) (gss : List (List ℕ)) (b : BlockDraw)
+    (rows : List (List ℤ)) (h : blockRows pops gss b = some rows) : rows.length = b.loci.length := by
+  unfold blockRows at h
+  simp only at h
+  split at h
+  · simp at h
+  · rename_i rows' hr
+    simp only [Option.some.injEq] at h
+    subst h
+    have hlen := transposeCols_length _ _ rows' hr
+    simp only [List.length_append, List.length_replicate, hlen, List.length_map]
+    have h1 := countP_add_filter_not b.loci (fun loc => simDrop (isum (List.zipWith simAlt gss loc)))
+      (fun loc => simKeep (isum (List.zipWith simAlt gss loc))) (fun loc => hkd _)
+    have h2 := countP_add_filter_not (b.loci.filter (fun loc => simKeep (isum (List.zipWith simAlt gss loc))))
+      (fun loc => !(List.zipWith (fun (cs : List ℤ) (p : Pop) => simEnough (simCalled cs : ℕ) (p.nsub : ℕ)) (List.zipWith simCalls gss loc) pops).all id)
+      (fun loc => (List.zipWith (fun (cs : List ℤ) (p : Pop) => simEnough (simCalled cs : ℕ) (p.nsub : ℕ)) (List.zipWith simCalls gss loc) pops).all id)
+      (fun loc => by simp)
+    omega
 
 theorem axesOf_nOut (pops : List Pop) : (axesOf pops).map (·.nOut) = pops.map fun p => p.nsub + 1 := by
   simp [axesOf, mkAxis, List.map_map, Function.comp_def]
